@@ -20,9 +20,11 @@ KIND_CLASS = {k: c for c, ks in CLASSES.items() for k in ks}
 EXTS = [".py", ".ts", ".tsx", ".js", ".jsx", ".rs", ".java", ".go", ".txt", ".md", "", ".PY", ".json"]
 
 
-def draw_fault(t, data: bytes, lang: str, allow_blowup: bool = True) -> dict:
+def draw_fault(t, data: bytes, lang: str, allow_blowup: bool = True, force_blowup: bool = False) -> dict:
     classes = ["torn", "corrupt", "grammar", "grammar"] + (["blowup"] if allow_blowup else [])
     cls = t.pick(classes, "fault.class")
+    if force_blowup and t.chance(2, 3, "fault.force"):
+        cls = "blowup"
     kind = t.pick(CLASSES[cls], "fault.kind")
     n = max(1, len(data))
     P = 1 << 20
